@@ -28,7 +28,7 @@ func init() {
 				"request-specific adjustment (AD bit, ECS echo) and after hop-by-hop data is removed, and re-applies those " +
 				"adjustments on the hit path.",
 			NotCovered: "the rounding amount of the served TTL, LRU eviction, that the cache library honours the expiry (trusted).",
-			Rules: map[string]string{"C04-R14": "TTL stores on records that may come from an additional section are guarded by a not-OPT test (the OPT TTL field is extended rcode / version / DO)", "C04-RC": "class rules (error chains, shadowed results, character classes, crossed arguments, pool constructors, array pools, loop completeness, loop-carried buffers, replacing setters, complete clones, Grow arithmetic, pooled-buffer escape, sorted searches, fresh decode targets, per-iteration objects, whole-message copies, codec guards) over the packages this property rests on", "C04-R13": "setECS leaves exactly one subnet option, in requests and responses alike (table shared with C05-R4)", "C04-R12": "cache wrappers (agdcache, ecscache, dnsserver/cache) use every parameter: key, value and expiration reach the wrapped cache", "C04-R1": "served TTL aged on every path", "C04-R2": "cache key completeness", "C04-R3": "cacheability and store tables",
+			Rules: map[string]string{"C04-R15": "ecscache ServeDNS: the upstream request carries the subnet the cache is keyed by (table shared with C05-R1)", "C04-R14": "TTL stores on records that may come from an additional section are guarded by a not-OPT test (the OPT TTL field is extended rcode / version / DO)", "C04-RC": "class rules (error chains, shadowed results, character classes, crossed arguments, pool constructors, array pools, loop completeness, loop-carried buffers, replacing setters, complete clones, Grow arithmetic, pooled-buffer escape, sorted searches, fresh decode targets, per-iteration objects, whole-message copies, codec guards) over the packages this property rests on", "C04-R13": "setECS leaves exactly one subnet option, in requests and responses alike (table shared with C05-R4)", "C04-R12": "cache wrappers (agdcache, ecscache, dnsserver/cache) use every parameter: key, value and expiration reach the wrapped cache", "C04-R1": "served TTL aged on every path", "C04-R2": "cache key completeness", "C04-R3": "cacheability and store tables",
 				"C04-R4": "lowest-TTL helper table", "C04-R5": "hit-path coverage and store ordering", "C04-R6": "cached items are private deep copies"},
 		}})
 }
@@ -57,6 +57,9 @@ func runC04(c *an.Ctx) {
 	if n := sharedTTLStoreSkipsOPT(c, "C04-R14", "ecscache.", "dnsserver/cache.", "dnsmsg."); n < 2 {
 		c.Und("C04-R14", "TTL stores on additional-section records", token.NoPos, "only %d found (expected the two caches' fromCacheItem)", n)
 	}
+	// ---- R15: what goes upstream and what keys the cache are the same subnet (shared with C05-R1)
+	c.Floor("C04-R15", 1)
+	c.Borrow("C04-R15", runC05, func(o an.Obligation) bool { return o.Rule == "C05-R1" && strings.Contains(o.Key, "ServeDNS") })
 	c.Floor("C04-R10", 10)
 	c04ClonerPools(c, "C04-R10")
 	c.Floor("C04-R9", 3)
